@@ -33,6 +33,8 @@ pub enum ModelParseError {
 
     #[error("Stream was not found")]
     StreamNotFound,
+    #[error("NUM_STREAMS does not match the number of stream types")]
+    StreamCountMismatch,
     #[error("Position was not found")]
     PositionNotFound,
     #[error("Position is out of the range of the data section")]
@@ -66,6 +68,10 @@ pub fn parse_htsvoice(input: &[u8]) -> Result<Voice, ModelParseError> {
     let global: Global = parse_header(&in_global)?;
     let stream: Stream = parse_header(&in_stream)?;
     let position: Position = parse_header(&in_position)?;
+
+    if global.num_streams == 0 || global.num_streams != global.stream_type.len() {
+        return Err(ModelParseError::StreamCountMismatch);
+    }
 
     let (duration_model, stream_models) = parse_data_section(in_data, &global, &stream, &position)?;
 
